@@ -48,6 +48,12 @@ Theorem c08_headers_cbor_conforms : forall e bs, go_exchange e -> int64 (e_statu
 Proof. exact headers_cbor_conforms. Qed.
 Print Assumptions c08_headers_cbor_conforms.
 
+(* the same as one equation: Ok bytes <-> Some bytes, Err <-> None *)
+Theorem c08_headers_cbor_eq : forall e, go_exchange e -> int64 (e_status e) ->
+  spec_headers_cbor e = to_opt (encode_exchange_headers e).
+Proof. exact headers_cbor_eq. Qed.
+Print Assumptions c08_headers_cbor_eq.
+
 (* ... and it fails (duplicate map key: two names equal after lower-casing, or
    a header literally named like a pseudo key) exactly when the spec gives none *)
 Theorem c08_headers_cbor_err : forall e, go_exchange e -> int64 (e_status e) ->
@@ -87,6 +93,24 @@ Theorem c08_signed_message_b1_conforms : forall e cert validity date expires m,
 Proof. exact signed_message_b1_conforms. Qed.
 Print Assumptions c08_signed_message_b1_conforms.
 
+(* including the failures: un-encodable headers (duplicate key) give Err / None *)
+Theorem c08_signed_message_b1_eq : forall e cert validity date expires,
+  e_ver e = V1b1 -> go_exchange e -> int64 (e_status e) ->
+  int64 date -> int64 expires -> go_len validity ->
+  match cert with Some c => go_len c | None => True end ->
+  spec_message_b1 e cert validity date expires = to_opt (signed_message e cert validity date expires).
+Proof. exact signed_message_b1_eq. Qed.
+Print Assumptions c08_signed_message_b1_eq.
+
+Theorem c08_signed_message_b2b3_eq : forall e c validity date expires,
+  e_ver e <> V1b1 -> go_exchange e -> int64 (e_status e) ->
+  int64 date -> int64 expires -> go_len validity ->
+  (forall hdr, encode_exchange_headers e = Ok hdr -> lenN hdr < two64) ->
+  spec_message_b2b3 e (Some c) validity date expires
+  = to_opt (signed_message e (Some c) validity date expires).
+Proof. exact signed_message_b2b3_eq. Qed.
+Print Assumptions c08_signed_message_b2b3_eq.
+
 Theorem c08_signed_message_b2b3_conforms : forall e c validity date expires m,
   e_ver e <> V1b1 -> go_exchange e -> int64 (e_status e) ->
   int64 date -> int64 expires -> go_len validity ->
@@ -95,6 +119,19 @@ Theorem c08_signed_message_b2b3_conforms : forall e c validity date expires m,
    spec_message_b2b3 e (Some c) validity date expires = Some m).
 Proof. exact signed_message_b2b3_conforms. Qed.
 Print Assumptions c08_signed_message_b2b3_conforms.
+
+(* REFUTED for cert-sha256 unset: whenever the library produces a b2/b3 message
+   without a certificate hash, it is the spec's message minus the "Otherwise a
+   0 byte" of item 4 (see also the concrete witness further down) *)
+Theorem c08_signed_message_b2b3_nocert_gap : forall e validity date expires m,
+  e_ver e <> V1b1 -> go_exchange e -> int64 (e_status e) ->
+  int64 date -> int64 expires -> go_len validity ->
+  (forall hdr, encode_exchange_headers e = Ok hdr -> lenN hdr < two64) ->
+  signed_message e None validity date expires = Ok m ->
+  exists rest, m = message_prefix (e_ver e) ++ rest /\
+    spec_message_b2b3 e None validity date expires = Some (message_prefix (e_ver e) ++ 0 :: rest).
+Proof. exact signed_message_b2b3_nocert_gap. Qed.
+Print Assumptions c08_signed_message_b2b3_nocert_gap.
 
 (* negative date / expires: no 8-byte encoding; refused by model and spec alike *)
 Theorem c08_signed_message_b2b3_negative : forall e cert validity date expires,
@@ -114,6 +151,10 @@ Theorem c08_file_conforms : forall e bs, go_exchange e -> int64 (e_status e) ->
   (write e = Ok bs <-> spec_file e = Some bs).
 Proof. exact file_conforms. Qed.
 Print Assumptions c08_file_conforms.
+
+Theorem c08_file_eq : forall e, go_exchange e -> int64 (e_status e) -> spec_file e = to_opt (write e).
+Proof. exact file_eq. Qed.
+Print Assumptions c08_file_eq.
 
 Theorem c08_write_never_panics : forall e, match write e with Ok _ | Err => True | _ => False end.
 Proof. exact write_ok_or_err. Qed.
@@ -314,13 +355,17 @@ Proof. vm_compute. repeat split. Qed.
    although Write refuses to produce it and 5.3 says "parsing MUST fail". *)
 Definition ex_oversig : exchange :=
   {| e_ver := V1b3; e_uri := s2b "https://e.com/"; e_method := s2b "GET"; e_reqh := [];
-     e_status := 200%Z; e_resph := []; e_sig := repeat 97 16385; e_payload := []; e_taint := false |}.
+     e_status := 200%Z; e_resph := []; e_sig := repeat 97 (N.to_nat 16385); e_payload := [];
+     e_taint := false |}.
+Definition ex_oversig_hdr : bytes := [161; 71] ++ s2b ":status" ++ [67] ++ s2b "200".
+Definition ex_oversig_file : bytes :=
+  s2b "sxg1-b3" ++ [0] ++ [0; 14] ++ e_uri ex_oversig ++ [0; 64; 1] ++ [0; 0; 13]
+  ++ e_sig ex_oversig ++ ex_oversig_hdr.
 Example read_ignores_length_limits :
+  encode_exchange_headers ex_oversig = Ok ex_oversig_hdr /\
   write ex_oversig = Err /\ spec_file ex_oversig = None /\
-  exists hdr, encode_exchange_headers ex_oversig = Ok hdr /\
-    is_ok (read (s2b "sxg1-b3" ++ [0] ++ [0; 14] ++ e_uri ex_oversig ++ [0; 64; 1] ++ [0; 0; lenN hdr]
-                 ++ e_sig ex_oversig ++ hdr)) = true.
-Proof.
-  split; [vm_compute; reflexivity|]. split; [vm_compute; reflexivity|].
-  eexists. split; vm_compute; reflexivity.
-Qed.
+  match read ex_oversig_file with
+  | Ok e' => (lenN (e_sig e') =? 16385) && (e_status e' =? 200)%Z
+  | _ => false
+  end = true.
+Proof. repeat split; vm_compute; reflexivity. Qed.
